@@ -338,6 +338,10 @@ var suffixFamilies = [][]string{
 	{"example.com", "xample.com", "ample.com", "mple.com", "ple.com", "le.com", "e.com", "an.example.com", "n.example.com"},
 	{"a.b.c.d.e.example.com", "b.c.d.e.example.com", "c.d.e.example.com", "d.e.example.com", "e.example.com", "xe.example.com"},
 	{"localhost", "ocalhost", "calhost", "host", "st", "t"},
+	// across host KINDS: a domain that is a byte suffix of an IPv6 literal's text (hex letters
+	// only), so that the literal hangs below a domain in a suffix tree
+	{"[::cafe]", "cafe", "afe", "fe", "[1::cafe]"},
+	{"[2001:db8::dead:beef]", "beef", "ef", "f", "[db8::dead:beef]", "[::beef]"},
 }
 
 // a scheme of exactly 64 bytes (the documented maximum)
